@@ -15,6 +15,12 @@
 //    same construction; problem0/1 = which problem object a population is bound to before/after, '-' otherwise)
 //   CACHE <bits> <op>...   ops I,k0,k1,w[,w..] insert  C clear()  X,k0,k1 clear(key)   (hex 64-bit patterns)
 //                                                -> OK | ret | savehex | savehex of the reloaded fresh cache | n (k0 k1 lookup-original lookup-reloaded)*
+//   SEARCH <cache bits> <individuals> <seed> <clear after k|-1> <file: ok|none|bad>
+//          a search<i_mep> with a counting evaluator behind the evaluator_proxy; the individuals are evaluated
+//          (the cache is cleared after the k-th), search::save() writes env.misc.serialization_file, a second
+//          search object on the same problem search::load()s it; every individual is then evaluated through
+//          both proxies:  hit = the wrapped evaluator was NOT called
+//          -> OK | save ret | load ret | hex of the file | hex of cache::save of the first proxy | n (sig find-in-original find-in-reloaded find-just-before hit-through-reloaded-proxy value)*
 //   SSET 2 / SSET 3 = the symbol sets of the second problem objects
 // types: H F MEP GA DE TEAM POPMEP POPGA POPDE POPTEAM SUMMEP SUMGA SUMDE DIST MAT
 //        DISTX = DIST fed with finite values whose squares overflow (non-finite second moment)
@@ -31,6 +37,9 @@
 //   DIST   : count:X mean:X min:X max:X m2:X n (key:X val:X)*
 //   MAT    : cols:X n int*
 #include <chrono>
+#include <cstdio>
+#include <fstream>
+#include <unistd.h>
 #include <cstdint>
 #include <cstring>
 #include <iostream>
@@ -49,6 +58,8 @@
 #include "kernel/gp/src/primitive/factory.h"
 #include "kernel/gp/team.h"
 #include "kernel/distribution.h"
+#include "kernel/evaluator_proxy.h"
+#include "kernel/search.h"
 #include "utility/matrix.h"
 #undef private
 #undef protected
@@ -704,6 +715,91 @@ void run_cache(const std::vector<std::string> &w)
   }
   std::cout << '\n';
 }
+// ---- search::save / search::load of the evaluator cache --------------------------------
+unsigned long eva_calls = 0;
+struct counting_evaluator : evaluator<i_mep>
+{
+  fitness_t operator()(const i_mep &i) override
+  {
+    ++eva_calls;
+    const hash_t h(i.signature());
+    return {static_cast<double>(h.data[0] % 100000) / 7.0, -static_cast<double>(h.data[1] % 1000)};
+  }
+};
+
+std::string fit_s(const fitness_t &f)
+{
+  if (!f.size()) return "-";
+  std::string s;
+  for (std::size_t j(0); j < f.size(); ++j) s += (j ? "," : "") + hex64(bits_of(f[j]));
+  return s;
+}
+
+void run_search(const std::vector<std::string> &w)
+{
+  problem &p(P->mep1);
+  const unsigned bits(static_cast<unsigned>(std::stoul(w[1])));
+  const unsigned n(static_cast<unsigned>(std::stoul(w[2])));
+  random::seed(static_cast<unsigned>(std::stoul(w[3])));
+  const int clear_after(std::stoi(w[4]));
+  const std::string file(w[5] == "none" ? "" : w[5] == "bad" ? "/nonexistent-dir/vv/cache.txt"
+                                             : "/tmp/vv_c11_search_" + std::to_string(getpid()) + ".txt");
+  const auto old_cache(p.env.cache_size);
+  const auto old_file(p.env.misc.serialization_file);
+  p.env.cache_size = bits;
+  p.env.misc.serialization_file = file;
+
+  std::vector<i_mep> inds;
+  for (unsigned i(0); i < n; ++i) inds.push_back(gen(tag<i_mep>(), p, i % 4));
+
+  search<i_mep, std_es> s1(p);
+  s1.training_evaluator<counting_evaluator>();
+  using proxy_t = evaluator_proxy<i_mep, counting_evaluator>;
+  auto *px1(static_cast<proxy_t *>(s1.eva1_.get()));
+  for (unsigned i(0); i < n; ++i)
+  {
+    (*s1.eva1_)(inds[i]);
+    if (static_cast<int>(i) == clear_after) s1.eva1_->clear();
+  }
+  const bool sret(s1.save());
+  std::string content;
+  if (!file.empty())
+  {
+    std::ifstream f(file);
+    std::stringstream ss;
+    ss << f.rdbuf();
+    content = ss.str();
+  }
+  std::ostringstream cs;
+  px1->cache_.save(cs);
+
+  search<i_mep, std_es> s2(p);
+  s2.training_evaluator<counting_evaluator>();
+  const bool lret(s2.load());
+
+  std::cout << "OK | " << sret << " | " << lret << " | " << to_hex(content) << " | " << to_hex(cs.str()) << " | " << n;
+  auto *px2(static_cast<proxy_t *>(s2.eva1_.get()));
+  // pure lookups first (they do not change the tables) ...
+  std::vector<std::string> col;
+  for (unsigned i(0); i < n; ++i)
+  {
+    const hash_t h(inds[i].signature());
+    col.push_back(hex64(h.data[0]) + ' ' + fit_s(px1->cache_.find(h)) + ' ' + fit_s(px2->cache_.find(h)));
+  }
+  // ... then one evaluation through the reloaded proxy (a miss inserts, possibly over another slot: the
+  // expected answer is the lookup made just before)
+  for (unsigned i(0); i < n; ++i)
+  {
+    const fitness_t pre(px2->cache_.find(inds[i].signature()));
+    const auto c0(eva_calls);
+    const fitness_t e2((*s2.eva1_)(inds[i]));
+    std::cout << ' ' << col[i] << ' ' << fit_s(pre) << ' ' << (eva_calls == c0) << ' ' << fit_s(e2);
+  }
+  std::cout << '\n';
+  if (!file.empty()) std::remove(file.c_str());
+  p.env.cache_size = old_cache;
+  p.env.misc.serialization_file = old_file;
+}
 }  // namespace
 
 int main()
@@ -730,6 +826,11 @@ int main()
           std::cout << ' ' << hex64(s->opcode()) << ' ' << s->arity() << ' '
                     << (s->terminal() && terminal::cast(s.get())->parametric() ? 1 : 0);
         std::cout << '\n';
+        continue;
+      }
+      if (w.size() == 6 && w[0] == "SEARCH")
+      {
+        run_search(w);
         continue;
       }
       if (w.size() >= 2 && w[0] == "CACHE")
